@@ -38,6 +38,7 @@ THEOREMS = [
     "C19.module_shape",
     "C19.guard",
     "C19.never_overwrites",
+    "C19.guard_tests_what_is_written",
     "C19.imports_cover",
     "C19.imports_cover_module",
     "C19.get_types_first_level",
@@ -424,6 +425,34 @@ def compare_component(lab, im, mo):
 # ------------------------------------------------------------------------------------------------------------------
 # the real CLI
 # ------------------------------------------------------------------------------------------------------------------
+# output arguments that reach an EXISTING file (models.py, pre-created with the sentinel) only through some normalisation:
+# literal `~` (HOME is the case's temp dir), `./` `../` segments, duplicate / trailing slashes, a symlink, absolute variants.
+# `{abs}` = the case's temp dir.  (spelling, class)
+OUT_SPELLINGS = [("~/models.py", "tilde"), ("~//models.py", "tilde"), ("~/sub/../models.py", "tilde"), ("./models.py", "relative"), ("sub/../models.py", "relative"),
+                 (".//models.py", "dup-slash"), ("sub//..//models.py", "dup-slash"), ("models.py/", "trailing-slash"), ("./models.py//", "trailing-slash"),
+                 ("link.py", "symlink"), ("./sub/../link.py", "symlink"), ("{abs}//models.py", "dup-slash"), ("{abs}/sub/../models.py", "relative"),
+                 ("{abs}/link.py", "symlink"), ("{abs}/models.py/", "trailing-slash")]
+SPELL_CLASS = dict(OUT_SPELLINGS)
+
+
+def make_layout(d):
+    """models.py (sentinel), sub/, link.py -> models.py"""
+    Path(os.path.join(d, "models.py")).write_text(SENTINEL)
+    os.mkdir(os.path.join(d, "sub"))
+    os.symlink("models.py", os.path.join(d, "link.py"))
+
+
+def snapshot(d):
+    """regular files below d (symlinks not followed): relative path -> bytes"""
+    snap = {}
+    for root, dirs, files in os.walk(d):
+        for f in files:
+            p = os.path.join(root, f)
+            rel = os.path.relpath(p, d)
+            snap[rel] = ("link:" + os.readlink(p)).encode() if os.path.islink(p) else Path(p).read_bytes()
+    return snap
+
+
 ASCII_ID = re.compile(r"^[A-Za-z_][A-Za-z0-9_]*$")
 SENTINEL = "# SENTINEL: this file existed before gen ran\nKEEP = 'untouched'\n"
 JSON_NAMES = ["alpha", "my_schema", "Foo", "x.y"]
@@ -486,7 +515,12 @@ def gen_cli_case(r, k):
     n = 1 if r.random() < 0.35 else r.randint(2, 5)
     case = {"id": k, "kind": kind, "emit": r.choice(EMITS), "tpl": r.choice(CLI_TEMPLATES), "infer": r.random() < 0.4,
             "prepend": r.choice(PREPENDS), "imports_file": r.choice(IMPORT_FILES), "exists": r.random() < 0.2, "phase": 0, "json_basename": None}
-    if r.random() < 0.12:
+    case["out_spelling"] = None
+    if r.random() < 0.15:
+        # an output argument that names the pre-created models.py through `~`, `./`, `../`, `//`, a trailing slash or a symlink
+        case["out_spelling"] = r.choice(OUT_SPELLINGS)[0]
+        case["exists"] = True
+    if r.random() < 0.12 and not case["out_spelling"]:
         # the region where import inference can succeed at all: one symbol, one module table, no second import statement
         kind, n = r.choice(["class", "function"]), 1
         case.update(kind=kind, emit=r.choice(["class", "class", "sqlalchemy", "sqlalchemy_table"]), infer=True, imports_file=r.choice([None, None, "X = 1\n"]),
@@ -619,20 +653,44 @@ def run_cli_case(case):
         if case["imports_file"] is not None:
             impf = os.path.join(d, "imps.py")
             Path(impf).write_text(case["imports_file"])
-        if case["exists"]:
+        if case["exists"] and not case.get("out_spelling"):
             Path(out).write_text(SENTINEL)
-        env = dict(os.environ, PYTHONPATH=str(core.REPO), PYTHONHASHSEED="0")
+        out_arg = out
+        fs = {"isfile": bool(case["exists"]), "open_error": None}
+        if case.get("out_spelling"):
+            # the argument reaches the pre-created models.py only through a normalisation; file-system facts about the RAW string are
+            # measured with os.path / open (the OS's resolution, no `~`), the open probe on a replica of the layout
+            make_layout(d)
+            out_arg = case["out_spelling"].replace("{abs}", d)
+            out = os.path.join(d, "models.py")
+            fs["isfile"] = os.path.isfile(os.path.join(d, out_arg))
+            d2 = tempfile.mkdtemp(prefix="c19r_", dir=case["tmp"])
+            try:
+                make_layout(d2)
+                try:
+                    open(os.path.join(d2, case["out_spelling"].replace("{abs}", d2)), "a").close()
+                except OSError as e:
+                    fs["open_error"] = type(e).__name__
+            finally:
+                shutil.rmtree(d2, ignore_errors=True)
+        resolved = os.path.relpath(os.path.realpath(os.path.join(d, out_arg)), os.path.realpath(d))
+        before = snapshot(d)
+        # HOME and cwd are the case's temp dir: the real home is never touched
+        env = dict(os.environ, PYTHONPATH=str(core.REPO), PYTHONHASHSEED="0", HOME=d)
         try:
-            p = subprocess.run([core.PY, "-m", "cdd", "gen"] + cli_args(case, inp, out, impf), stdout=subprocess.PIPE, stderr=subprocess.PIPE,
+            p = subprocess.run([core.PY, "-m", "cdd", "gen"] + cli_args(case, inp, out_arg, impf), stdout=subprocess.PIPE, stderr=subprocess.PIPE,
                                text=True, env=env, cwd=d, timeout=120)
         except subprocess.TimeoutExpired:
             return {"timeout": True}
+        after = snapshot(d)
         err_lines = [l for l in p.stderr.split("\n") if l.strip()]
         last = err_lines[-1] if err_lines else ""
         m = re.match(r"^([A-Za-z_][\w.]*)(?::\s*(.*))?$", last)
         res = {"rc": p.returncode, "exc": (m.group(1).split(".")[-1] if m and p.returncode else None), "msg": (m.group(2) or "" if m else last)[:160],
                "stderr_tail": "\n".join(err_lines[-6:])[-800:], "out": Path(out).read_text() if os.path.isfile(out) else None,
-               "other_files": sorted(f for f in os.listdir(d) if f not in (os.path.basename(inp), os.path.basename(out), "imps.py"))}
+               "other_files": sorted(f for f in os.listdir(d) if f not in (os.path.basename(inp), os.path.basename(out), "imps.py")),
+               "fs": fs, "resolved_out": resolved,
+               "modified": sorted(set(k for k in after if before.get(k) != after[k]) | set(k for k in before if k not in after))}
         try:
             devnull = open(os.devnull, "w")
             import contextlib
@@ -652,7 +710,9 @@ def gen_request(case, res):
     rq = {"op": "c19.gen", "tpl": case["tpl"], "parse": case["parse"], "emit": case["emit"], "infer_imports": case["infer"],
           "prepend": prepend_json(case["prepend"]), "file_imports": file_imports_json(case["imports_file"]), "tables": tables_for(texts),
           "world": [{k: v for k, v in w.items() if k in ("name", "ir_name", "parse_error", "emit_error", "stmt")} for w in res["world"]],
-          "exists": case["exists"], "phase": case.get("phase", 0), "output": "out"}
+          "exists": res["fs"]["isfile"], "phase": case.get("phase", 0), "output": case.get("out_spelling") or "out"}
+    if res["fs"]["open_error"]:
+        rq["open_error"] = res["fs"]["open_error"]
     if body is None:
         rq["json_basename"] = case["json_basename"]
     else:
@@ -661,13 +721,10 @@ def gen_request(case, res):
 
 
 def real_view(case, res):
-    """The same view of the real run as the model's reply."""
-    if case["exists"] and case.get("phase", 0) == 0:
-        trace = ["isfile", "raise:%s" % res["exc"]] if res["rc"] else ["isfile", "append"]
-        return {"trace": trace, "untouched": res["out"] == SENTINEL}
-    if res["rc"]:
-        return {"trace": ["isfile", "raise:%s" % res["exc"]], "file_written": res["out"] is not None}
-    v = {"trace": ["isfile", "append"]}
+    """The same view of the real run as the model's reply: effect kinds, the files created / changed, the written content."""
+    v = {"trace": ["isfile", "raise:%s" % res["exc"]] if res["rc"] else ["isfile", "append"], "modified": res["modified"]}
+    if res["rc"] or case["exists"] or case.get("out_spelling"):
+        return v
     if case["emit"] == "json_schema":
         try:
             d = json.loads(res["out"])
@@ -678,19 +735,33 @@ def real_view(case, res):
     else:
         try:
             v["run"] = {"module": pyast.module_to_json(res["out"])}
-        except SyntaxError as e:
+        except (SyntaxError, TypeError) as e:
             v["run"] = {"unreadable": repr(e)[:200]}
     return v
 
 
-def model_view(case, mo):
+def model_view(case, res, mo):
     if "error" in mo:
         return {"model_error": mo["error"]}
-    if case["exists"] and case.get("phase", 0) == 0:
-        return {"trace": mo["trace"], "untouched": "append" not in mo["trace"]}
-    if "error" in mo["run"]:
-        return {"trace": mo["trace"], "file_written": "append" in mo["trace"]}
-    return {"trace": mo["trace"], "run": mo["run"]}
+    want_path = case.get("out_spelling") or "out"
+    kinds, wrote, bad_path = [], False, []
+    for ev in mo["trace"]:
+        if len(ev) > 1 and ev[1] != want_path:
+            bad_path.append(ev)  # every path of the trace is the raw argument (theorem guard_tests_what_is_written)
+        if ev[0] == "open-append":
+            # open(p, "a") creates the file when it is new; on an existing one it changes nothing by itself
+            continue
+        if ev[0] == "write":
+            wrote = True
+            kinds.append("append")
+        else:
+            kinds.append(ev[0])
+    v = {"trace": kinds, "modified": [res["resolved_out"]] if wrote else []}
+    if bad_path:
+        v["path_not_the_argument"] = bad_path
+    if wrote and not (case["exists"] or case.get("out_spelling")) and "error" not in mo["run"]:
+        v["run"] = mo["run"]
+    return v
 
 
 def sym_name(n):
@@ -771,11 +842,12 @@ def oracle(case, res):
     if res.get("timeout"):
         fail("timeout", "gen did not finish in 120 s")
         return fails
-    if case["exists"]:
+    if case["exists"] or case.get("out_spelling"):
+        sp = SPELL_CLASS.get(case.get("out_spelling"), "plain")
         if res["rc"] == 0:
-            fail("guard", "gen exited 0 on an existing output file")
-        if res["out"] != SENTINEL:
-            fail("guard", "existing output file was modified")
+            fail("guard", "gen completed although --output-filename=%s reaches an existing file" % (case.get("out_spelling") or "<existing path>"), spelling=sp)
+        if res["out"] != SENTINEL or res.get("modified"):
+            fail("guard", "existing output file was modified (files changed: %s)" % res.get("modified"), spelling=sp)
         return fails
     if not oracle_entries(case):
         return fails  # an empty input mapping is outside the quantifier (1..5 entries)
@@ -893,7 +965,7 @@ def oracle(case, res):
     return fails
 
 
-CASE_FIELDS = ("kind", "emit", "tpl", "infer", "prepend", "imports_file", "exists", "parse", "input_text", "json_basename", "phase")
+CASE_FIELDS = ("kind", "emit", "tpl", "infer", "prepend", "imports_file", "exists", "parse", "input_text", "json_basename", "phase", "out_spelling")
 
 
 def case_key(c):
@@ -911,7 +983,7 @@ W_JSON = json.dumps({"$id": "https://example.com/alpha.schema.json", "$schema": 
 
 def _w(text, **kw):
     c = {"kind": "class", "emit": "class", "tpl": "{name}Config", "infer": False, "prepend": None, "imports_file": None, "exists": False, "parse": "class",
-         "input_text": text, "json_basename": None, "phase": 0}
+         "input_text": text, "json_basename": None, "phase": 0, "out_spelling": None}
     c.update(kw)
     return c
 
@@ -929,6 +1001,7 @@ def witness_cases():
         _w(W_CLASS2, prepend='"""Doc"""\nimport sys\nfrom __future__ import annotations\nX = 1\n'),  # control: ordering
         _w(W_CLASS, exists=True),                                                 # control: the guard
         _w(W_CLASS, exists=True, emit="json_schema"),
+    ] + [_w(W_CLASS, exists=True, out_spelling=sp, emit=e) for sp, _ in OUT_SPELLINGS for e in ("class", "json_schema")] + [
         _w(W_CLASS, emit="function"),
         _w(W_CLASS, emit="pydantic"),
         _w(W_CLASS, emit="argparse", infer=True),
@@ -974,7 +1047,7 @@ def cli_matrix(chk: core.Check):
     reqs = [gen_request(c, x) for c, x in zip(cases, results) if not x.get("timeout")]
     model = iter(core.model_batch(reqs))
     n_dis = n_out = n_contract = n_improper = 0
-    dist = {"emit": {}, "parse": {}, "input": {}, "outcome": {}, "entries": {}, "flags": {}, "oracle": {}}
+    dist = {"emit": {}, "parse": {}, "input": {}, "outcome": {}, "entries": {}, "flags": {}, "oracle": {}, "output_argument": {}}
 
     def bump(k, v):
         dist[k][str(v)] = dist[k].get(str(v), 0) + 1
@@ -985,15 +1058,17 @@ def cli_matrix(chk: core.Check):
             # termination is C11's property; a CLI run that does not finish in 120 s under load is a harness problem (exit 2), not a violation of C19
             raise core.HarnessError("`python -m cdd gen` did not finish within 120 s on %s" % json.dumps(key)[:600])
         mo = next(model)
-        chk.count(("cli", json.dumps(key, sort_keys=True)), x["rc"] == 0 or c["exists"])
+        guarded = bool(c["exists"] or c.get("out_spelling"))
+        chk.count(("cli", json.dumps(key, sort_keys=True)), x["rc"] == 0 or guarded)
         bump("emit", c["emit"])
         bump("parse", c["parse"])
         bump("input", c["kind"])
         bump("entries", len(x["world"]))
-        bump("outcome", "guard-refused" if c["exists"] and x["rc"] else ("ok" if x["rc"] == 0 else "raises:%s" % x["exc"]))
-        bump("flags", "infer=%s prepend=%s imports_file=%s exists=%s" % (c["infer"], c["prepend"] is not None, c["imports_file"] is not None, c["exists"]))
-        rv, mv = real_view(c, x), model_view(c, mo)
-        outside = "error" in mo.get("run", {}) and str(mo["run"]["error"]).startswith("outside:") and not c["exists"]
+        bump("outcome", ("existing-file:%s" % ("refused" if x["exc"] == "OSError" else "raises:%s" % x["exc"])) if guarded and x["rc"] else ("ok" if x["rc"] == 0 else "raises:%s" % x["exc"]))
+        bump("flags", "infer=%s prepend=%s imports_file=%s exists=%s" % (c["infer"], c["prepend"] is not None, c["imports_file"] is not None, guarded))
+        bump("output_argument", SPELL_CLASS.get(c.get("out_spelling"), "absolute, existing" if c["exists"] else "absolute, new"))
+        rv, mv = real_view(c, x), model_view(c, x, mo)
+        outside = "error" in mo.get("run", {}) and str(mo["run"]["error"]).startswith("outside:") and any(ev[0].startswith("raise:outside:") for ev in mo.get("trace", []))
         improper = c["infer"] and any(w.get("improper") for w in x["world"])
         if improper:
             n_improper += 1
@@ -1017,13 +1092,13 @@ def cli_matrix(chk: core.Check):
                     chk.disagreement("C19 correspondence: emitters' naming contract (GenModule.symbolName)", {"case": key, "entry": w["name"]}, got, e)
         for sig, what in oracle(c, x):
             chk.failure(sig, what, {"case": key})
-        if x["rc"] == 0 and not c["exists"]:
+        if x["rc"] == 0 and not guarded:
             bump("oracle", "written output examined")
             if c["infer"] and c["emit"] != "json_schema":
                 bump("oracle", "imports-cover clause evaluated (inference succeeded)")
-        elif c["exists"]:
+        elif guarded:
             bump("oracle", "guard clause evaluated")
-        if x["rc"] == 0 and not c["exists"] and c["emit"] != "json_schema":
+        if x["rc"] == 0 and not guarded and c["emit"] != "json_schema":
             chk.sample({"args": cli_args(c, "inp.py", "out.py", "imps.py" if c["imports_file"] else None), "output_head": x["out"][:300]}, limit=3)
     chk.oblige("correspondence: real CLI `python -m cdd gen` = GenModule.gen + mainGen on %d runs (%d outside the model)" % (len(cases), n_out),
                "correspondence", n_dis == 0, "%d disagreements" % n_dis)
